@@ -13,7 +13,7 @@ from . import extract
 from .extract import ExtractionError
 
 VERIF = os.path.dirname(os.path.dirname(os.path.abspath(__file__)))
-BUILD = os.path.join(VERIF, 'build')
+BUILD = os.environ.get('VP_BUILD') or os.path.join(VERIF, 'build')       # VP_BUILD: separate build directory for sensitivity sub-runs
 SHIMS = os.path.join(VERIF, 'shims')
 MEM_KB = 12 * 1024 * 1024
 
@@ -532,8 +532,11 @@ def run_property(prop, harnesses, tier, seed, meta, partial=False):
         'wall_s': wall,
         'violations': len(by_h),
     }
-    os.makedirs(os.path.join(VERIF, 'evidence'), exist_ok=True)
-    with open(os.path.join(VERIF, 'evidence', prop + '.json'), 'w') as f:
+    # the evidence file describes a complete run on /repo's working tree: partial (--only) runs and sensitivity sub-runs write theirs
+    # into the build directory instead
+    evdir = os.path.join(VERIF, 'evidence') if not (partial or os.environ.get('VP_NO_EVIDENCE')) else outdir
+    os.makedirs(evdir, exist_ok=True)
+    with open(os.path.join(evdir, prop + ('.json' if evdir != outdir else '.partial-evidence.json')), 'w') as f:
         json.dump(ev, f, indent=1)
     for ln in lines:
         print(ln)
